@@ -776,4 +776,28 @@ WARN_MUTANTS = [
 ]
 MUTANTS += WARN_MUTANTS
 
+ALL = ["C01", "C02", "C03", "C04", "C05", "C06", "C07", "C08", "C09", "C10", "C11", "C12", "C13", "C14", "C15", "C16", "C17", "C18", "C19", "C20"]
+BENIGN_TWINS = [
+    dict(id="twin-rename-locals-1", props=ALL, benign=True, edits=[
+        (MARSHAL, r"(?<![.\w])values\b(?!\()", "decoded", "re"), (MARSHAL, r"\belement_value\b", "elem_val", "re"),
+        (MARSHAL, r"\bselection\b", "arm_of", "re"), (MARSHAL, r"\bselectee_name\b", "arm", "re"),
+        (MARSHAL, r"\bbuffer_size_exp\b", "declared", "re"), (MARSHAL, r"\bsize_field\b", "sf", "re"),
+        (MARSHAL, r"\bbuffer_field\b", "bf", "re"), (MARSHAL, r"\bvalue_typed\b", "typed", "re")]),
+    dict(id="twin-rename-locals-2", props=ALL, benign=True, edits=[
+        (MARSHAL, r"(?<![.\w])field\b(?!s)", "fld", "re"), (MARSHAL, r"(?<![.\w=])error\b(?!=)", "exc", "re"),
+        (MARSHAL, r"\(error=error\)", "(error=exc)", "re"),
+        (MARSHAL, r"\btypes_map\b", "tmap", "re"), (MARSHAL, r"\bprocessor\b", "proc", "re"),
+        (MARSHAL, r"\bcommand_code_path\b", "cc_path", "re"), (MARSHAL, r"\bchild_node\b", "child", "re"),
+        (MARSHAL, r"\bparent_path\b", "ppath", "re"), (MARSHAL, r"\bselector_value\b", "selval", "re"),
+        (MARSHAL, r"\bbuffer_iter\b", "src_it", "re"), (MARSHAL, r"\bbuffer_depleted\b", "exhausted", "re"),
+        (CONSTR, r"(?<![.\w])constraint\b(?!s|_)", "region", "re"),
+        (PRETTY, r"\bchild_buffer\b", "buf", "re"), (PRETTY, r"\bis_empty\b", "empty", "re"), (PRETTY, r"\bis_tpm2b\b", "bytes_list", "re"),
+        (OBJECT, r"\bevents_single_command_or_response\b", "current", "re"), (OBJECT, r"\bobj_fields\b", "fs", "re")]),
+    dict(id="twin-docstrings", props=ALL, benign=True, edits=[
+        (MARSHAL, r'^    """Coroutine\. Send in one byte if it yields None\. Send in None if it yields an MarshalEvents\."""$',
+         '    """Coroutine: send one byte whenever it yields None, send None whenever it yields an event."""', "re"),
+        (CONSTR, r"^        # look ahead \(so self\.size_already is the number of parsed bytes\)$", "        # look ahead first; size_already counts bytes that were really consumed", "re")]),
+]
+MUTANTS += BENIGN_TWINS
+
 MUTANTS = [m for m in MUTANTS if not m.get("skip_if_missing")]
